@@ -1599,6 +1599,16 @@ class Interp:
         else:
             for cv, s in self._ev(f, st, out):
                 callee_vals.append((cv, s, None))
+        # x.append(v) on a local that holds a list display keeps the display up to date (candidates = [a]; candidates.append(b))
+        if isinstance(f, ast.Attribute) and f.attr in ("append",) and isinstance(f.value, ast.Name) and len(e.args) == 1 and not e.keywords and not isinstance(e.args[0], ast.Starred):
+            key_ = self._name_key(f.value.id)
+            cur_ = st.env.get(key_)
+            if isinstance(cur_, tuple) and cur_ and cur_[0] == "list" and len(cur_[1]) < 8 and f.value.id not in fr.cellvars:
+                res_ = []
+                for v_, s_ in self._ev(e.args[0], st, out):
+                    s2_ = self.call(("attr", cur_, "append"), (v_,), (), e, s_, out, None)[0][1]
+                    res_.append((NONE, s2_.set(key_, ("list", cur_[1] + (v_,)))))
+                return res_
         for cv, s, meta in callee_vals:
             for vs, s2 in self._seq(e.args, s, out):
                 kw_exprs = [k.value for k in e.keywords]
